@@ -1984,6 +1984,20 @@ impl Vm {
         self.set_global(module_path, "HashMap", Value::ObjClass(obj_hash_map_class));
         let obj_fiber_class = self.class_store.fiber_class();
         self.set_global(module_path, "Fiber", Value::ObjClass(obj_fiber_class));
+        let error_classes = [
+            ("Error", self.class_store.error_class()),
+            ("StopIter", self.class_store.stop_iter_class()),
+            ("RuntimeError", self.class_store.runtime_error_class()),
+            ("AttributeError", self.class_store.attribute_error_class()),
+            ("IndexError", self.class_store.index_error_class()),
+            ("ImportError", self.class_store.import_error_class()),
+            ("NameError", self.class_store.name_error_class()),
+            ("TypeError", self.class_store.type_error_class()),
+            ("ValueError", self.class_store.value_error_class()),
+        ];
+        for (name, class) in error_classes {
+            self.set_global(module_path, name, Value::ObjClass(class));
+        }
     }
 
     fn load_frame(&mut self) {
